@@ -320,7 +320,10 @@ def _finish(prop, mod, ns, result_list, nshards, probe, known, seed, t0, probe_f
                     print(f"  key={key} inputs={v['count']} :: {v['summary']}")
                 rc = 1
         if len(new_keys) > 20:
-            print(f"  ... and {len(new_keys) - 20} more violation keys (all in the evidence file)")
+            import collections
+
+            classes = collections.Counter("/".join(k.split("/")[:2]) for k in new_keys)
+            print(f"  ... and {len(new_keys) - 20} more violation keys (all in the evidence file); by class: " + ", ".join(f"{c} x{n}" for c, n in classes.most_common(8)))
         if probe_failed:
             if not new_keys:
                 print(f"HARNESS-NONDETERMINISM property={prop} {probe_failed}: two runs of the same shard observed different things")
